@@ -320,6 +320,23 @@ func init() {
 		}
 		return tcpTransport("0-1", "")
 	}))
+	// answers that make the client drop this connection and start over (redirect, transport of the other
+	// protocol), with a server request travelling in the same segment right behind them: the client's reader
+	// has something in its hands while the client resets
+	trailing := func(f fn) fn {
+		return func(s *server, req *base.Request, r *resp, d *delivery) {
+			f(s, req, r, d)
+			d.post = append(d.post, []byte("OPTIONS rtsp://"+srvAddr+"/stream RTSP/1.0\r\nCSeq: 88\r\n\r\n"))
+		}
+	}
+	reg("status-301-location-then-request", "status", "DESCRIBE", true, trailing(redirect(301, 1)))
+	reg("transport-proto-swapped-then-request", "transport", "SETUP", true, trailing(tr(func(q *base.Request) string {
+		if reqTransport(q).Protocol == headers.TransportProtocolTCP {
+			return fmt.Sprintf("RTP/AVP;unicast;client_port=30000-30001;server_port=%d-%d", srvRTPPort, srvRTPPort+1)
+		}
+		return tcpTransport("0-1", "")
+	})))
+	reg("ok-then-request", "inject", "", true, trailing(func(*server, *base.Request, *resp, *delivery) {}))
 	reg("transport-twice", "transport", "SETUP", false, func(s *server, req *base.Request, r *resp, d *delivery) {
 		v, _ := r.get("Transport")
 		r.add("Transport", v)
